@@ -118,6 +118,12 @@ Definition summarises (k : kind) (s : Z) (bs : list Z) (xs : list Z) (p : dpoint
   (sum_checkable k s xs = true -> p_sum p = SFin (zsum xs)) /\
   (p_rmm p = true -> forall v t, xs = v :: t -> p_min p = list_min v t /\ p_max p = list_max v t).
 
+(* the configuration a point is checked against: the view's, or - without one - the defaults the OpenTelemetry
+   specification fixes for explicit-bucket histograms (boundaries in units of 2^-s; min/max recorded) *)
+Definition otel_default_bounds : list Z := [0; 5; 10; 25; 50; 75; 100; 250; 500; 750; 1000; 2500; 5000; 7500; 10000].
+Definition spec_cfg (s : Z) (c : option cfg) : cfg :=
+  match c with Some x => x | None => mkC (map (fun b => Z.shiftl b s) otel_default_bounds) true end.
+
 (* ------------------------------------------------------------------ which values a register summarises *)
 Record sym := mkSym {
   y_vals : list Z;       (* the multiset, in order of arrival *)
